@@ -219,6 +219,29 @@ theorem getitem_spec {d r : Ds} {ix : List Item} (hi : Inv d) (h : getitem d ix 
         intro j hj
         exact build_get p.shape _ hj
 
+/-- **kept axes, in order**: for an index expression with at most one list, the axes of the
+result are exactly the source axes that are not indexed by an integer, each exactly once; they
+come in source order unless NumPy's advanced-index rule applies (integers and a list not next
+to each other in the expression), in which case the list axis comes first; and result axis `k`
+reads source axis `p.order[k]` through its own selector (`Sel.at`: `start + step·t` for a
+slice, the `t`-th entry for a list) while integer axes are fixed. -/
+theorem getitem_axes {shape : List Nat} {ix : List Item} {p : Plan} (h : plan shape ix = .ok p)
+    (hm : p.multiList = false) :
+    p.items.length = shape.length ∧ p.order.Nodup ∧
+    (∀ a, a ∈ p.order ↔ a < shape.length ∧ (p.items.getD a default).isInt = false) ∧
+    (advSeparated ix = false → p.order.Pairwise (· < ·)) ∧
+    (∀ j k (hk : k < p.order.length), p.order[k] < p.sels.length →
+      (srcIdx p.sels p.order j)[p.order[k]]? = some ((p.sels.getD p.order[k] default).at (j.getD k 0))) := by
+  obtain ⟨h1, h2⟩ := plan_ok h
+  have hlen := expandItems_length h1
+  have ho := h2 hm
+  refine ⟨hlen, ?_, ?_, ?_, ?_⟩
+  · rw [ho]; exact npOrder_nodup _ _
+  · intro a; rw [ho, mem_npOrder, hlen]
+  · intro hs; rw [ho, hs]; exact npOrder_sorted _
+  · intro j k hk ha
+    exact srcIdx_axis p.sels p.order j (by rw [ho]; exact npOrder_nodup _ _) k hk ha
+
 /-! ### exact error guards -/
 
 /- Full statement (not proved): `crop` without `axes` raises exactly when `crop_widths` does
